@@ -740,18 +740,10 @@ impl<'a> Sim<'a> {
                 self.abstract_state(&o1);
             }
             BOp::SendMany { orders } => {
-                let mut o_prev = o0.clone();
-                let mut s_prev = s0.clone();
-                for spec in orders {
-                    self.do_send(spec, &o_prev, &s_prev);
-                    o_prev = self.observe();
-                    s_prev = self.snapshot();
-                    if self.ctx.failed() {
-                        break;
-                    }
-                }
-                self.generic_rules(&o_prev, "send_orders");
-                self.abstract_state(&o_prev);
+                self.do_send_many(orders, &o0, &s0);
+                let o1 = self.observe();
+                self.generic_rules(&o1, "send_orders");
+                self.abstract_state(&o1);
             }
             BOp::Liquidate { amt } => self.do_liquidate(amt.0, &o0, &s0),
             BOp::Check => self.do_check(&o0, &s0),
@@ -864,6 +856,83 @@ impl<'a> Sim<'a> {
             if o0.failed {
                 self.ctx.nontrivial |= self.ctx.focus == "C09";
             }
+        }
+    }
+
+    /// The property's gatekeeping predicate on the broker's own reported state.
+    fn should_forward(&self, spec: &OrderSpec, o0: &Obs) -> Option<bool> {
+        let (_bid, ask, _) = o0.quotes.get(&spec.symbol).copied()?;
+        let shares = spec.shares.0;
+        let held = o0.holdings.get(&spec.symbol).copied();
+        Some(
+            !o0.failed
+                && shares != 0.0
+                && (!spec.typ.is_buy() || o0.cash > shares * ask)
+                && (!(spec.typ == Typ::MarketSell && held.is_some()) || shares <= held.unwrap()),
+        )
+    }
+
+    /// C06 through the batch entry point: one send_orders call. Cash and holdings do not move while
+    /// sending, so the predicate of every order is evaluated on the state before the call.
+    fn do_send_many(&mut self, specs: &[OrderSpec], o0: &Obs, s0: &VerifSnapshot) {
+        let orders: Vec<Order> = specs.iter().map(|s| s.to_sut()).collect();
+        let dropped0 = self.sh.dropped_unpolled.get();
+        let events = self.brkr.send_orders(&orders);
+        let out = self.absorb_wire();
+        let s1 = self.snapshot();
+        let o1 = self.observe();
+        ev!(
+            self.ctx, "send_orders {:?} -> {:?} arrivals={}", specs,
+            events.iter().map(|e| matches!(e, BrokerEvent::OrderSentToExchange(_))).collect::<Vec<_>>(), out.arrivals.len()
+        );
+        if specs.iter().any(|s| !o0.quotes.contains_key(&s.symbol)) {
+            self.ctx.bump("skipped_out_of_domain_unquoted_symbol");
+            return;
+        }
+        rule!(
+            self.ctx, "C06", "event-per-order", "send_orders", events.len() == orders.len(),
+            "send_orders was given {} orders and answered with {} events: {:?}", orders.len(), events.len(), specs
+        );
+        if events.len() != orders.len() {
+            return;
+        }
+        let mut sent: Vec<&Order> = Vec::new();
+        for ((spec, order), e) in specs.iter().zip(orders.iter()).zip(events.iter()) {
+            let is_sent = matches!(e, BrokerEvent::OrderSentToExchange(_));
+            let should = self.should_forward(spec, o0).unwrap_or(false);
+            let sig = spec.typ.name();
+            rule!(self.ctx, "C06", "valid-order-refused", sig, !(should && !is_sent), "send_orders: order {:?} meets every condition but was answered {:?}", spec, e);
+            rule!(self.ctx, "C06", "invalid-order-forwarded", sig, !(is_sent && !should), "send_orders: order {:?} was forwarded although it must be refused (cash {:?}, held {:?}, failed {})", spec, o0.cash, o0.holdings.get(&spec.symbol), o0.failed);
+            if is_sent {
+                sent.push(order);
+                self.led.accept_order(order);
+                self.ctx.bump("orders_forwarded");
+            } else {
+                self.ctx.bump("orders_refused");
+            }
+        }
+        let mode_sig = if self.sh.dropped_unpolled.get() > dropped0 { "future-dropped-unpolled" } else { "send_orders" };
+        let arrived_ok = out.arrivals.len() == sent.len() && out.arrivals.iter().zip(sent.iter()).all(|(a, b)| orders_equal(a, b, self.json));
+        rule!(
+            self.ctx, "C06", "forwarded-exactly-once", mode_sig, arrived_ok,
+            "send_orders reported {} orders sent but {} reached the exchange (or they differ): sent {:?} arrived {:?}", sent.len(), out.arrivals.len(), sent, out.arrivals
+        );
+        rule!(
+            self.ctx, "C06", "exchange-buffer", mode_sig, s1.buffer.len() == s0.buffer.len() + sent.len() || !arrived_ok,
+            "after send_orders the exchange's pending buffer went from {} to {} orders, {} were forwarded", s0.buffer.len(), s1.buffer.len(), sent.len()
+        );
+        rule!(self.ctx, "C04", "send-moves-cash", "send_orders", o1.cash == o0.cash, "send_orders moved cash {:?} -> {:?}", o0.cash, o1.cash);
+        rule!(self.ctx, "C05", "send-moves-holdings", "send_orders", o1.holdings == o0.holdings, "send_orders changed holdings");
+        if sent.is_empty() {
+            rule!(
+                self.ctx, "C06", "refusal-not-inert", "send_orders", o1.cash == o0.cash && o1.holdings == o0.holdings && o1.pending == o0.pending && s1.buffer.len() == s0.buffer.len(),
+                "send_orders refused everything but changed state"
+            );
+        } else {
+            self.ctx.nontrivial |= self.ctx.focus == "C06" && !self.all_eager;
+        }
+        if specs.windows(2).any(|w| w[0].symbol == w[1].symbol && w[0].typ == w[1].typ && w[0].shares.0 == w[1].shares.0) {
+            self.ctx.bump("probe_adjacent_lookalike_orders_in_batch");
         }
     }
 
@@ -1391,7 +1460,21 @@ impl Gen {
                 },
                 3 => {
                     let n = self.rng.range(2, 4);
-                    let orders: Vec<OrderSpec> = (0..n).filter_map(|_| self.order(&o, sim.ds)).collect();
+                    let mut orders: Vec<OrderSpec> = Vec::new();
+                    for _ in 0..n {
+                        // look-alike neighbours: same symbol, type and size (another price for limit/stop)
+                        if !orders.is_empty() && self.rng.chance(0.4) {
+                            let mut twin = orders.last().unwrap().clone();
+                            if let Some(p) = twin.price {
+                                if self.rng.one_in(2) {
+                                    twin.price = Some(X(p.0 + 1.0));
+                                }
+                            }
+                            orders.push(twin);
+                        } else if let Some(x) = self.order(&o, sim.ds) {
+                            orders.push(x);
+                        }
+                    }
                     if orders.is_empty() {
                         BOp::Check
                     } else {
